@@ -454,7 +454,8 @@ func (x *Exec) havocItem(st *State, it ModItem) {
 			key := globalKey(it.Global, joinPath(it.Path, l.path))
 			st.heapArr(key, l.sort)
 		}
-		for k, a := range st.heap {
+		for _, k := range sortedHeapKeys(st.heap) {
+		a := st.heap[k]
 			if k == pfx || strings.HasPrefix(k, pfx+".") || strings.HasPrefix(k, pfx+"#") {
 				st.heap[k] = Fresh("Hg!"+k, a.Sort)
 			}
@@ -633,7 +634,8 @@ func (x *Exec) havocModText(st *State, fr *Frame, calleeKey, item string) {
 			}
 		}
 		st.events = append(st.events, "MD:", "MV:", "E:")
-		for k, a := range st.heap {
+		for _, k := range sortedHeapKeys(st.heap) {
+		a := st.heap[k]
 			if strings.HasPrefix(k, "MD:") || strings.HasPrefix(k, "MV:") || strings.HasPrefix(k, "E:") {
 				st.heap[k] = Fresh("Hl!"+k, a.Sort)
 			}
